@@ -131,6 +131,9 @@ def run(ctx: Ctx):
     ctx.add_sample(next(e for e in traces[-1] if e["a"] == "join"))
     ctx.validate_traces("Trace_Incoming", traces, metas=metas, label="incoming", sig=sig)
     ctx.events_validated = ctx.evaluations
+    # the wire layouts of the structures this procedure exchanges with the NCP, pinned from the EZSP reference (spec/WireLayout.tla)
+    from . import wirelayout
+    wirelayout.check(ctx, ['EmberApsFrame'])
     ctx.exhaustive = False
     ctx.assumptions += ["zigpy.util.Requests shim; the application's packet_received / handle_join / handle_leave are wrapped on the instance",
                         "frame IDs 0x45 / 0x24, field orders and enum codes pinned from the EZSP reference in the harness encoder and spec/Incoming.tla"]
